@@ -326,7 +326,9 @@ class Gen:
                 a, b = self.gen((k, wa), d - 1), self.gen((k, wb), d - 1)
                 return Node(t, f"({a.py} {sym} {b.py})", f"(XBin {B} {a.cq} {b.cq})", [a, b], tag=f"{p}:{k}{wa},{k}{wb}",
                             key=f"{p}:{k},{k}")
-            a = self.gen(t, d - 1)
+            a = self.nonconst(self.gen(t, d - 1))
+            if not a.ports:
+                return None
             i = self.int_for(k, w, d)
             if mode < 0.8:
                 return Node(t, f"({a.py} {sym} {i.py})", f"(XBin {B} {a.cq} {i.cq})", [a, i], tag=f"{p}:{k}{w},int", key=f"{p}:{k},int")
@@ -588,6 +590,8 @@ class Gen:
             w0 = r.choice(self.W)
             a = self.vec_any(w0, d - 1)
             a = self.nonconst(a)
+            if not a.ports:
+                return None
             if r.random() < 0.75:
                 i = self.ref_leaf(("u", r.choice([x for x in self.W if x <= 2] or [self.W[0]])), w0)
             else:
@@ -698,6 +702,8 @@ class Gen:
             return Node(t, f"(-{a.py})", f"(XUn NNeg {a.cq})", [a], tag="neg:int", key="neg:int")
         if p == "ite":
             nd = self.ite(t, d)
+            if not nd.kids[1].ports:
+                return None     # alternatives that are both Python ints never become a run-time object (outside the property)
             nd.nat = nd.kids[1].nat and nd.kids[2].nat
             return nd
         return None
